@@ -142,9 +142,40 @@ func runC12(e *Engine, r *Report) {
 			n++
 			recv := s.Common().Args[0]
 			// the request comes from a borrow (remove=false) or is the single pending slot; never from a take that removes
-			getP := e.Func("(*dragonboat.proposalShard).getProposal")
-			bad := getP != nil && e.dependsOn(recv, e.callV(getP), 0)
-			okb := !bad && (borrow == nil || e.dependsOn(recv, e.callV(borrow), 0) || e.dependsOn(recv, func(v ssa.Value) bool {
+			// (by role: the take primitive called with remove=false, directly or
+			// through a wrapper that passes the constant)
+			takeFn := e.Func("(*dragonboat.proposalShard).takeProposal")
+			removing, borrowed := false, false
+			flagOfTake := func(c *ssa.Call) {
+				a := c.Call.Args
+				if cb, isC := isConstBool(a[len(a)-1]); isC {
+					if cb {
+						removing = true
+					} else {
+						borrowed = true
+					}
+				}
+			}
+			e.dependsOn(recv, func(v ssa.Value) bool {
+				c, ok := v.(*ssa.Call)
+				if !ok || takeFn == nil {
+					return false
+				}
+				if e.CallsTo(c, takeFn) {
+					flagOfTake(c)
+					return false
+				}
+				if g := c.Call.StaticCallee(); g != nil && fnPkg(g) == root {
+					for _, ts := range e.SitesIn(g, takeFn) {
+						if tc, ok := ts.(*ssa.Call); ok {
+							flagOfTake(tc)
+						}
+					}
+				}
+				return false
+			}, 0)
+			_ = borrow
+			okb := !removing && (borrowed || e.dependsOn(recv, func(v ssa.Value) bool {
 				f, _, ok := loadedField(v)
 				return ok && f.Name() == "pending"
 			}, 0))
@@ -158,10 +189,9 @@ func runC12(e *Engine, r *Report) {
 		if take != nil {
 			for _, s := range e.CallerSites(take) {
 				args := s.Common().Args
-				cb, isC := isConstBool(args[len(args)-1])
-				want := strings.Contains(s.Parent().Name(), "get")
-				r.check(isC && cb == want, "WMC-committed", "takeProposal(remove) in "+fname(s.Parent()), e.ipos(s),
-					"getProposal removes, borrowProposal does not", "the remove flag of takeProposal does not match the helper's contract")
+				_, isC := isConstBool(args[len(args)-1])
+				r.check(isC, "WMC-committed", "takeProposal(remove) in "+fname(s.Parent())+" passes a constant", e.ipos(s),
+					"whether the request is detached is decided statically at each site", "takeProposal is called with a remove flag that is not a constant")
 			}
 			// takeProposal deletes under `remove` and returns only a matching, unexpired request
 			forEachInstr(take, func(in ssa.Instruction) {
